@@ -129,21 +129,31 @@ var newvalueDec = typedDecoder{"newvalue", func(d *refmodel.Datum) ([]byte, int,
 }}
 
 // consumedOnFull runs the decoder over the whole encoding followed by a
-// sentinel and returns how many bytes it took (len(enc) if it fails: a
-// decoder that cannot decode the full encoding is C03's business).
-func consumedOnFull(enc []byte, f decodeFn) int {
+// sentinel and returns how many bytes it took and whether it succeeded.
+func consumedOnFull(enc []byte, f decodeFn) (int, bool) {
 	rd := enum.NewFragReader(enc, nil, enum.NoEOF, 0)
-	if out, _ := outcome(f, rd); out != "accepted" || rd.Pos() > len(enc) {
-		return len(enc)
+	out, _ := outcome(f, rd)
+	return rd.Pos(), out == "accepted"
+}
+
+// wrongOnFull says whether the decoder already mishandles the FULL valid
+// encoding of d (error, panic, or a consumption different from its length).
+// Such a decoder is out of step with the format - what it does with a prefix
+// is then a consequence, not a separate defect.
+func wrongOnFull(dec typedDecoder, d *refmodel.Datum) bool {
+	enc, _, f, ok := dec.prep(d)
+	if !ok {
+		return false
 	}
-	return rd.Pos()
+	n, good := consumedOnFull(enc, f)
+	return !good || n != len(enc)
 }
 
 // cutAll runs the decoder over every strict prefix of the encoding of d and
-// files the accepted ones. Prefixes that are accepted only because the
-// decoder stops before the end of the FULL encoding (it never looks at the
-// missing bytes) are filed once per datum under "stops-early", attributed to
-// the atom kinds that cause the early stop.
+// files the ones that are not refused. When the decoder is already wrong on
+// the full encoding (it skips or misreads an element, so it never looks at
+// the missing bytes or is out of step with them) the datum is filed once
+// under "wrong-on-full", attributed to the atom kinds that cause it.
 func cutAll(dec typedDecoder, d *refmodel.Datum, fam *int64, mds []enum.EOFMode, g *enum.Guard, classes map[string]bool) {
 	enc, off, f, ok := dec.prep(d)
 	if !ok {
@@ -152,8 +162,8 @@ func cutAll(dec typedDecoder, d *refmodel.Datum, fam *int64, mds []enum.EOFMode,
 	}
 	_, spans := refmodel.EncodeSpans(d)
 	rd := enum.NewFragReader(nil, nil, 0, 0)
-	full := consumedOnFull(enc, f)
-	filedEarly := false
+	wrong := wrongOnFull(dec, d)
+	filedWrong := false
 	for k := 0; k < len(enc); k++ {
 		for _, mode := range mds {
 			k, mode := k, mode
@@ -179,70 +189,87 @@ func cutAll(dec typedDecoder, d *refmodel.Datum, fam *int64, mds []enum.EOFMode,
 				classes[part+"|refused"] = true
 				continue
 			}
-			if out == "accepted" && k >= full {
-				classes[part+"|accepted-stops-early"] = true
-				if !filedEarly {
-					filedEarly = true
-					fileEarly(dec, d, mode)
+			if wrong {
+				classes[part+"|"+out+"-decoder-wrong-on-full"] = true
+				if !filedWrong {
+					filedWrong = true
+					fileWrong(dec, d, k, mode)
 				}
 				break
 			}
 			classes[part+"|"+out] = true
-			fileCut(dec, d, k, off, mode, out)
+			fileCut(dec, d, k, off, mode)
 			break
 		}
 	}
 }
 
-// fileEarly records a decoder that stops before the end of a full valid
-// encoding, so that every prefix from that point on is accepted.
-func fileEarly(dec typedDecoder, d *refmodel.Datum, mode enum.EOFMode) {
-	early := func(x *refmodel.Datum) bool {
-		enc, _, f, ok := dec.prep(x)
-		return ok && consumedOnFull(enc, f) < len(enc)
-	}
-	detail, min := enum.Blame(d, early, nil)
+// fileWrong records a decoder that mishandles a full valid encoding and, as
+// a consequence, does not refuse some prefix of it.
+func fileWrong(dec typedDecoder, d *refmodel.Datum, k int, mode enum.EOFMode) {
+	detail, min := enum.Blame(d, func(x *refmodel.Datum) bool { return wrongOnFull(dec, x) }, nil)
 	menc, _, mf, _ := dec.prep(min)
-	c := consumedOnFull(menc, mf)
-	fp := fmt.Sprintf("cut/%s/accepted/stops-early/%s", dec.name, detail)
-	rank := fmt.Sprintf("%06d|%06d|%s", len(menc), c, min.T)
+	c, good := consumedOnFull(menc, mf)
+	// a prefix of the reduced case that is not refused, if any
+	cut, out := -1, ""
+	for kk := 0; kk < len(menc) && cut < 0; kk++ {
+		if o, _ := outcome(mf, enum.NewFragReader(menc[:kk], nil, mode, 0)); o != "" {
+			cut, out = kk, o
+		}
+	}
+	if cut < 0 {
+		// the reduced case refuses all its prefixes: keep the original one
+		min, menc, mf, cut = d, nil, nil, k
+		menc, _, mf, _ = dec.prep(d)
+		c, good = consumedOnFull(menc, mf)
+		out, _ = outcome(mf, enum.NewFragReader(menc[:cut], nil, mode, 0))
+		detail += "/unreduced"
+	}
+	fp := fmt.Sprintf("cut/%s/%s/wrong-on-full/%s", dec.name, out, detail)
+	rank := fmt.Sprintf("%06d|%06d|%s", len(menc), cut, min.T)
 	if run.Fail(fp, rank) {
-		run.Keep(fp, rank, fmt.Sprintf("%s takes only %d of the %d bytes %s of a full valid encoding (signature %q, value %s) and reports success, so every prefix of at least %d bytes is accepted", dec.name, c, len(menc), hexs(menc), min.T, min, c),
-			map[string]interface{}{"decoder": dec.name, "signature": min.T.String(), "value": min.String(), "encoding_hex": hexs(menc), "cut": c,
-				"prefix_hex": hexs(menc[:c]), "eof_mode": mode.String(), "expected": "a non-nil error", "found_in": fmt.Sprintf("%s %s", d.T, d)},
+		how := fmt.Sprintf("takes %d of the %d bytes", c, len(menc))
+		if !good {
+			how = "fails on the"
+		}
+		cutc, outc := cut, out
+		run.Keep(fp, rank, fmt.Sprintf("%s %s full valid encoding %s (signature %q, value %s); as a consequence its %d-byte prefix is not refused (%s)", dec.name, how, hexs(menc), min.T, min, cut, out),
+			map[string]interface{}{"decoder": dec.name, "signature": min.T.String(), "value": min.String(), "encoding_hex": hexs(menc), "cut": cut,
+				"prefix_hex": hexs(menc[:cut]), "eof_mode": mode.String(), "consumed_on_full": c, "expected": "a non-nil error", "found_in": fmt.Sprintf("%s %s", d.T, d)},
 			func() bool {
-				if c >= len(menc) {
-					return false
-				}
-				res, _ := outcome(mf, enum.NewFragReader(menc[:c], nil, mode, 0))
-				return res == "accepted"
+				res, _ := outcome(mf, enum.NewFragReader(menc[:cutc], nil, mode, 0))
+				return res == outc
 			})
 	}
 }
 
-// fileCut attributes and records one accepted (or panicking) truncation.
-func fileCut(dec typedDecoder, d *refmodel.Datum, k, off int, mode enum.EOFMode, out string) {
+// fileCut attributes and records one truncation that was not refused by a
+// decoder that handles the full encoding correctly.
+func fileCut(dec typedDecoder, d *refmodel.Datum, k, off int, mode enum.EOFMode) {
 	bad := func(x *refmodel.Datum, kk int) bool {
 		enc, o, f, ok := dec.prep(x)
 		if !ok || o+kk >= len(enc) || kk < 0 {
 			return false
 		}
 		res, _ := outcome(f, enum.NewFragReader(enc[:o+kk], nil, mode, 0))
-		return res == out
+		return res != ""
 	}
 	var detail string
 	min, mk := d, k-off
 	if k < off {
 		detail = "leaf=value-header"
-		mk = k - off
 	} else {
 		detail, min, mk = enum.BlameCut(d, k-off, bad, nil)
 	}
+	if wrongOnFull(dec, min) {
+		fileWrong(dec, min, mk, mode)
+		return
+	}
 	menc, moff, mf, _ := dec.prep(min)
 	cut := moff + mk
-	if out == "accepted" && cut >= consumedOnFull(menc, mf) {
-		// the reduced case is accepted because its decoder stops early
-		fileEarly(dec, min, mode)
+	out, det := outcome(mf, enum.NewFragReader(menc[:cut], nil, mode, 0))
+	if out == "" {
+		run.EngineError("reduction of %s %s cut at %d lost the failure", d.T, d, k)
 		return
 	}
 	// does the end-of-stream mode matter?
@@ -251,13 +278,12 @@ func fileCut(dec typedDecoder, d *refmodel.Datum, k, off int, mode enum.EOFMode,
 		other = enum.EOFWithData
 	}
 	suffix := ""
-	if res, _ := outcome(mf, enum.NewFragReader(menc[:cut], nil, other, 0)); res != out {
+	if res, _ := outcome(mf, enum.NewFragReader(menc[:cut], nil, other, 0)); res == "" {
 		suffix = "/" + mode.String()
 	}
 	fp := fmt.Sprintf("cut/%s/%s/%s%s", dec.name, out, detail, suffix)
 	rank := fmt.Sprintf("%06d|%06d|%s", len(menc), cut, min.T)
 	if run.Fail(fp, rank) {
-		_, det := outcome(mf, enum.NewFragReader(menc[:cut], nil, mode, 0))
 		run.Keep(fp, rank, fmt.Sprintf("%s over the first %d of the %d bytes %s (signature %q, value %s): %s", dec.name, cut, len(menc), hexs(menc), min.T, min, det),
 			map[string]interface{}{"decoder": dec.name, "signature": min.T.String(), "value": min.String(), "encoding_hex": hexs(menc), "cut": cut,
 				"prefix_hex": hexs(menc[:cut]), "eof_mode": mode.String(), "observed": det, "expected": "a non-nil error",
@@ -360,27 +386,34 @@ func familyValues(depth int, thorough bool) {
 		sigs = append(sigs, refmodel.MustParse(s))
 	}
 	nop := 0
+	fullDepth := 1 // signatures up to this depth get all of Val
+	if thorough {
+		fullDepth = 2
+	}
+	firstDeep := -1
 	for _, t := range sigs {
 		if t.IsAtom() {
 			continue
 		}
-		if (t.Depth() <= 1 && !t.Contains(refmodel.Object)) || thorough {
+		switch {
+		case t.Contains(refmodel.Object):
+			corpus = append(corpus, enum.Zero(t))
+			nop++
+		case t.Depth() <= fullDepth:
 			for _, d := range enum.Vals(t) {
 				corpus = append(corpus, d)
 				nop++
 			}
-		} else if t.Contains(refmodel.Object) {
-			corpus = append(corpus, enum.Zero(t))
-			nop++
-		} else {
+		default:
+			if firstDeep < 0 {
+				firstDeep = len(corpus)
+			}
 			corpus = append(corpus, enum.Dist(t), enum.Zero(t))
 			nop += 2
 		}
 	}
+	_ = firstDeep
 	mds := []enum.EOFMode{enum.EOFWithData}
-	if thorough {
-		mds = modes
-	}
 	guards := make(chan *enum.Guard, run.Workers+1)
 	for i := 0; i <= run.Workers; i++ {
 		guards <- run.NewGuard()
@@ -428,13 +461,18 @@ func familyTyped(depth int, thorough bool) {
 		cr, cd := map[string]bool{}, map[string]bool{}
 		n := 0
 		vals := []*refmodel.Datum{enum.Dist(t), enum.Zero(t)}
-		if thorough || t.Depth() <= 1 {
+		mds := modes
+		switch {
+		case t.Depth() <= 1 || (thorough && t.Depth() <= 2):
 			vals = enum.Vals(t)
+		case t.Depth() >= 3:
+			vals = vals[:1]
+			mds = modes[:1]
 		}
 		for _, d := range vals {
 			n++
-			cutAll(sigreaderDec, d, famR, modes, g, cr)
-			cutAll(reflectDec, d, famD, modes, g, cd)
+			cutAll(sigreaderDec, d, famR, mds, g, cr)
+			cutAll(reflectDec, d, famD, mds, g, cd)
 		}
 		local := map[string]int{}
 		for c := range cr {
@@ -555,9 +593,10 @@ func main() {
 		depth = 3
 	}
 	finish := func() int {
-		rule := "corpus x every cut position 0 <= k < len(e) x end-of-stream modes {data+EOF, EOF separate} (newvalue in quick: data+EOF only; messages also 1 byte per read): " +
-			"messages (8 types x payload 0,1,5,40); dynamic values (13 constructors x Val, value lists of depth <= 2, opaque composites of Sig(D,2) without o plus 5 fixed signatures containing o: all of Val for depth-1 signatures, " +
-			"distinguished+zero value deeper (thorough: all of Val)); typed data of Sig(D,2) through the signature reader and through the reflection decoder (all of Val for depth-1 signatures, distinguished+zero value deeper; thorough: all of Val); " +
+		rule := "corpus x every cut position 0 <= k < len(e) x end-of-stream modes {data+EOF, EOF separate} (newvalue and depth-3 typed data: data+EOF only; messages also 1 byte per read): " +
+			"messages (8 types x payload 0,1,5,40); dynamic values (13 constructors x Val, value lists of depth <= 2, opaque composites of Sig(2,2) without o plus 5 fixed signatures containing o: " +
+			"quick = all of Val for depth-1 signatures, distinguished+zero value for depth 2; thorough = all of Val); typed data of Sig(D,2) (D=2 quick, 3 thorough) through the signature reader and through the reflection decoder " +
+			"(quick: all of Val for depth 1, distinguished+zero value for depth 2; thorough: all of Val up to depth 2, the distinguished value for depth 3); " +
 			"MetaObject / ObjectReference / ServiceInfo / CapabilityMap boundary values and real meta-objects through their generated readers; argument tuples of every method of three generated stubs through Receive. " +
 			"evaluations counts decoder runs. A case class is (decoder, signature shape or decoder field path, element kind and part containing the first missing byte, outcome); " +
 			"distinct_nontrivial counts the distinct classes executed"
@@ -576,6 +615,6 @@ func main() {
 	familyStubs()
 	familyFixed()
 	familyTyped(depth, run.Thorough())
-	familyValues(depth, run.Thorough())
+	familyValues(2, run.Thorough())
 	os.Exit(finish())
 }
